@@ -31,6 +31,7 @@ def write_replay(prop, viol):
         "clause": viol["clause"],
         "case": viol["case"],
         "message": viol["message"],
+        "host_env": viol.get("host_env", 0),  # logging / warnings configuration of the shard that found it (runner.HOST_ENVS)
     }
     name = h({"clause": viol["clause"], "case": viol["case"]}) + ".json"
     path = os.path.join(d, name)
@@ -48,8 +49,34 @@ def check_repo():
         raise HarnessError(f"jaxtyping imported from {got}, expected under {repo}")
 
 
+HOST_ENVS = {0: "plain", 1: "jaxtyping-logger-at-DEBUG", 2: "jaxtyping-warnings-are-errors", 3: "logger-at-DEBUG+warnings-are-errors"}
+
+
+def apply_host_env(mode):
+    """The host application's logging / warnings configuration is part of the environment a check runs in, not of its input: a shard runs
+    with the 'jaxtyping' logger enabled at DEBUG (records are formatted into a sink), with warnings attributed to jaxtyping's modules turned
+    into exceptions (python -W error / pytest filterwarnings=error), with both, or with neither.  Nothing a property states may depend on it."""
+    import io
+    import logging
+    import warnings
+
+    if mode & 1:
+        lg = logging.getLogger("jaxtyping")
+        lg.setLevel(logging.DEBUG)
+        h = logging.StreamHandler(io.StringIO())
+        h.setFormatter(logging.Formatter("%(name)s %(message)s"))
+        lg.addHandler(h)
+        lg.propagate = False
+    if mode & 2:
+        warnings.filterwarnings("error", module=r"jaxtyping(\.|$)")
+
+
 def run_shard(mod, prop, tier, seed, shard, nshards):
     ctx = Ctx(prop, tier, seed, shard, nshards)
+    mode = (shard + seed) % 4 if os.environ.get("VF_HOST_ENV") is None else int(os.environ["VF_HOST_ENV"])
+    apply_host_env(mode)
+    ctx.host_env = mode
+    ctx.classes[f"host-env-{HOST_ENVS[mode]}"] += 1
     mod.run(ctx)
     return ctx
 
@@ -86,6 +113,7 @@ def main(argv=None):
         with open(args.replay) as f:
             body = json.load(f)
         ctx = Ctx(prop, tier, seed)
+        apply_host_env(int(body.get("host_env", 0)))
         try:
             msg = mod.replay(body["case"], body.get("clause"), ctx)
         except Violation as v:
